@@ -25,7 +25,8 @@ DataKinds == {"full", "subset"}
 \* clipped to the box), the generating value a few percent inside
 Starts == {"truth", "nearby", "on_lower", "on_upper"}
 Theories == {"mie", "mielens_fitted_angle"}
-Origins == {"at_zero", "offset"}     \* where the image's coordinate axes start (a region cut out of a larger image)
+Origins == {"at_zero", "offset", "particle_on_axis"}   \* the last: the cut-out's x axis straddles 0 and the particle sits at x = 0 exactly
+OriginsNote == "at_zero / offset:"     \* where the image's coordinate axes start (a region cut out of a larger image)
 Caches == {"hologram", "guess_hologram", "max_lnprob"}
 None == <<FALSE, {}>>
 
